@@ -1,6 +1,6 @@
 CONSTANTS
   Threads = {1, 2}
-  Times = {1, 2, 3}
+  Times = {1, 2}
   LastDue = 1
   MaxAdds = 3
 INVARIANTS NeverEarly BlockedJustified
